@@ -15,6 +15,8 @@ import (
 var c10Timeouts = []int{0, 1, 2, 3, 5, 60}
 
 type c10Model struct {
+	hasTok    bool
+	hasAuth   bool
 	exists    bool
 	created   time.Time
 	lo, hi    time.Time // bounds on "last used"
@@ -59,6 +61,13 @@ func c10Prop(c *sim.Case) {
 
 	// read performs a read and reconciles the model with what was observed
 	read := func(what string) {
+		// a read observes the session only through data it holds
+		if m.exists && what == "GetTokenResponse" && !m.hasTok {
+			what = "GetAuthorizationState"
+		}
+		if m.exists && what == "GetAuthorizationState" && !m.hasAuth {
+			what = "GetTokenResponse"
+		}
 		now := clk.Now()
 		j := m.judge(now)
 		var found bool
@@ -96,21 +105,17 @@ func c10Prop(c *sim.Case) {
 			if m.exists {
 				probedDead = true
 			}
-			m.exists = false
+			m.exists, m.hasTok, m.hasAuth = false, false, false
 		}
 	}
 	write := func(what string, n int) {
 		// resolve an "either" state first so that the write's effect on the creation time is determined
 		if m.exists && m.judge(clk.Now()) == 0 {
 			read("GetTokenResponse")
-			if m.exists {
-				// it may hold only login state; a tokens read then says "absent" without the session being gone.
-				// Resolve with the other read as well.
-			}
 		}
 		now := clk.Now()
 		if m.exists && m.judge(now) == -1 {
-			m.exists = false
+			m.exists, m.hasTok, m.hasAuth = false, false, false
 		}
 		var err error
 		switch what {
@@ -128,11 +133,18 @@ func c10Prop(c *sim.Case) {
 		} else if now.After(m.created) && m.abs > 0 {
 			touchedBeforeAbs = true
 		}
+		if what == "SetTokenResponse" {
+			m.hasTok = true
+		} else {
+			m.hasAuth = true
+		}
 		m.lo, m.hi = now, now
 	}
-	// always hold both tokens and login state so that either read observes the session
-	write("SetTokenResponse", 1)
+	// like a login: the session starts with its login state; the tokens arrive now or some time later
 	write("SetAuthorizationState", 0)
+	if sim.Bool(c, "tokens-at-start") {
+		write("SetTokenResponse", 1)
+	}
 	n := 2 + sim.Pick(c, "nops", 14)
 	for i := 0; i < n; i++ {
 		switch sim.Weighted(c, "op", 5, 3, 2) {
@@ -171,14 +183,7 @@ func c10Prop(c *sim.Case) {
 		case 1:
 			read(sim.PickStr(c, "read", "GetTokenResponse", "GetAuthorizationState"))
 		case 2:
-			what := sim.PickStr(c, "write", "SetTokenResponse", "SetAuthorizationState")
-			write(what, 2+i)
-			// keep both kinds of data present
-			if what == "SetTokenResponse" {
-				write("SetAuthorizationState", 0)
-			} else {
-				write("SetTokenResponse", 2+i)
-			}
+			write(sim.PickStr(c, "write", "SetTokenResponse", "SetTokenResponse", "SetAuthorizationState"), 2+i)
 		}
 	}
 	read("GetTokenResponse")
